@@ -173,9 +173,7 @@ def compare(case, r, mc):
 
 def model_vs_spec(mc):
     """the driver also evaluates the Lean brute-force spec functions: exact agreement expected where the theorems say so"""
-    if not mc.get("no_repeat"):
-        return []
-    d = []
+    d = []  # the theorems do not need "no repeated edges", so this is checked on every modelled case
     if mc["spec_maximal"] != mc["maximal"]:
         d.append("maximal")
     pairs = [("sed_raw", "spec_sed_raw"), ("sed_norm", "spec_sed_norm"), ("mfed_norm", "spec_mfed_norm"),
@@ -214,7 +212,32 @@ def mk_cases(nodes, edges, configs=None):
             for m, x in (configs or [(m, x) for m in (1, 2, 3) for x in (True, False)])]
 
 
+def gen_overlap(rng):
+    """2-4 large overlapping faces over <= 6 nodes plus a random part of their sub-faces (targets the bookkeeping
+    of sub-faces shared between maximal faces)"""
+    from ..fn import EDGE_IDS, LABELS
+    k = rng.randint(4, 6)
+    lab = rng.choice(LABELS[:5])(k)
+    rng.shuffle(lab)
+    faces = [rng.sample(lab, rng.randint(3, min(5, k))) for _ in range(rng.randint(2, 4))]
+    pool, seen = [], set()
+    for f in faces:
+        for r in range(1, len(f) + 1):
+            for c in itertools.combinations(f, r):
+                if frozenset(c) not in seen:
+                    seen.add(frozenset(c)); pool.append(list(c))
+    keep = rng.choice([0.2, 0.5, 0.8, 0.95])
+    es = [c for c in pool if rng.random() < keep or any(set(c) == set(f) for f in faces)]
+    rng.shuffle(es)
+    eid = rng.choice(EDGE_IDS)(len(es))
+    if len(set(map(repr, eid))) != len(es):
+        eid = list(range(len(es)))
+    return lab, [(eid[i], ms) for i, ms in enumerate(es)]
+
+
 def gen_random(rng, closed_bias=0.0):
+    if rng.random() < 0.3:
+        return gen_overlap(rng)
     nodes, edges = gen_hypergraph(rng, max_nodes=6, max_edges=rng.choice([3, 5, 7]), max_size=rng.choice([3, 4, 5]),
                                   multi=False, uniform_labels=True)
     u = rng.random()
